@@ -8,7 +8,8 @@ RULE = ("for each base scenario with fault-free length T the objective is made t
         "every exception type in {RuntimeError, ValueError, ZeroDivisionError, MemoryError, KeyboardInterrupt, SystemExit, GeneratorExit, private BaseException}; "
         "Solve must return, report exactly k-1 trials with the best of the k-1 logged values, and the search information must pass the C06 audit without the "
         "failed point. Two further exception types (rotating over 18, incl. IndexError/KeyError/StopIteration/RecursionError and user subclasses) are injected at every k; a fifth of the "
-        "faults are persistent (every later call fails too); long base runs (500..3000 trials) get faults at sampled k including the last. Faults are also injected after pre-batched iterations, and in SEQUENCES: 2-3 one-shot failures at random indices, Solve called again after each, count / best / record audited after every Solve. Non-trivial: every faulted run; distinct = (scenario, k, exception type).")
+        "faults are persistent (every later call fails too); long base runs (500..3000 trials) get faults at sampled k including the last. Faults are also injected after pre-batched iterations, and in SEQUENCES: 2-3 one-shot failures at random indices, Solve called again after each, count / best / record audited after every Solve. Non-trivial: every faulted run; distinct = (scenario, k, exception type)."
+       " A fifth of the faulted runs carry the shipped ConsoleFullOutputListener. Deep base runs (r barely above 1, eps = 1e-300) that the method's own guard ends receive faults at every evaluation completed before the guard.")
 ASSUMPTIONS = ["refineSolution=False (with refinement 'reflects exactly the k-1 completed trials' is not well defined)",
                "the reported accuracy after a fault is not checked (the statement lists count, point and value only)"]
 CHUNK = 1
